@@ -115,7 +115,8 @@ pub fn replay_tl_line(tally: &mut Tally, lineno: usize, line: &Value, scales: &[
             let tm = &line["tm"];
             // metadata (C03): what was configured, and total = delay + cycle x (repeats + 1)
             let (cyc, del, rep) = (tm["cyc"].as_i64().unwrap(), tm["del"].as_i64().unwrap(), tm["rep"].as_i64().unwrap());
-            let exp_total = if rep == -2 { f32::INFINITY } else { line["total"].as_i64().unwrap() as f32 * tick };
+            let exp_total = if rep == -2 { f32::INFINITY } else if rep == -3 { del as f32 * tick + cyc as f32 * tick * 4294967296.0f32 }
+                            else { line["total"].as_i64().unwrap() as f32 * tick };
             if tl.delay() != del as f32 * tick || tl.cycle_duration() != Some(cyc as f32 * tick) || tl.repeat() != repeat_of(rep) || tl.duration() != exp_total {
                 local.miss(json!({"line": lineno, "scale": s, "class": "meta", "got": [tl.delay(), tl.cycle_duration(), format!("{:?}", tl.repeat()), tl.duration().to_string()]}));
             }
